@@ -1286,7 +1286,10 @@ def suite_interop(out, tier, seed, part=None):
                 except Exception as e:  # noqa
                     exc = e
                 reqs = [p for p in ag.parsed[n_before:] if p["user"] != b""]
-                bad_stats = {k: v - before[k] for k, v in ag.stats.items() if v != before[k] and k != "unknownEngineIDs"}
+                probes = len([p for p in ag.parsed[n_before:] if p["user"] == b""])
+                # (a discovery probe is answered with an unknownEngineIDs report: that one is not a refusal)
+                bad_stats = {k: v - before[k] for k, v in ag.stats.items()
+                             if v != before[k] and not (k == "unknownEngineIDs" and v - before[k] <= probes)}
                 want_flags = 4 | (2 if privpw else 0) | (1 if hashname else 0)
                 if part in (None, "C10", "C05"):
                     if bad_stats:
@@ -1312,6 +1315,24 @@ def suite_interop(out, tier, seed, part=None):
                     raw = ag.datagrams[-1]
                     if b"\x2b\x06\x01\x02\x01\x01" in raw:
                         out.fail(dict(scen, op=name), "an OID of the scoped PDU is visible in the datagram", "only ciphertext travels")
+            if part in (None, "C10", "C05") and hashname:
+                # the same user and passwords at ANOTHER engine, in the same process (keys are localised per engine)
+                eid2 = bytes([0x80, 0x00, 0x1f, 0x88, 0x04]) + b"second-engine-%d" % plen
+                ag2 = agent.V3Agent(db, auth=(hashname, pw), priv=privpw, engine_id=eid2, clock=lambda: 77)
+                c2 = Client("127.0.0.1", creds, sender=ag2)
+                out.case((hashname, bool(privpw), plen, "second engine"))
+                try:
+                    run(c2.get(OID("1.3.6.1.2.1.1.2.0")))
+                    exc2 = None
+                except Exception as e:  # noqa
+                    exc2 = e
+                bad2 = {k: v for k, v in ag2.stats.items() if v and not (k == "unknownEngineIDs" and v <= 1)}
+                if bad2:
+                    out.fail(dict(scen, op="get at a second engine", engine_id=eid2.hex()), "agent refused the request: %r" % bad2,
+                             "accepted by an independent RFC 3414 engine")
+                elif exc2 is not None and part != "C05":
+                    out.fail(dict(scen, op="get at a second engine", engine_id=eid2.hex()), "response rejected: %s: %s" % (type(exc2).__name__, exc2),
+                             "authentic response accepted", finding="D9" if type(exc2).__name__ == "AuthenticationError" else None)
             if part in (None, "C12") and hashname:
                 # agent time advances: a request that succeeded right after discovery must succeed any time later
                 for adv in (10, 149, 151, 100000):
